@@ -140,7 +140,7 @@ Lemma patch_enter_spec : forall ps base s s' ts,
 Proof.
   induction ps as [|p r IH]; intros base s s' ts H ND; cbn in H.
   - inversion H; subst. repeat split; auto using frame_refl; try constructor. intros x [].
-  - destruct (begin_patch p (VFake base) s) as [s1 t] eqn:B.
+  - destruct (begin_patch p (newval p base s) s) as [s1 t] eqn:B.
     destruct (patch_enter r (N.succ base) s1) as [s2 ts2] eqn:R.
     inversion H; subst; clear H. inversion ND as [|? ? NI ND']; subst.
     destruct (begin_patch_spec _ _ _ _ _ B) as (F1 & T1 & I1 & OK1 & KO1).
